@@ -5,6 +5,7 @@
 package main
 
 import (
+	"encoding/json"
 	"flag"
 	"fmt"
 	"os"
@@ -28,7 +29,35 @@ func main() {
 	dump := flag.String("dump", "", "debug: dump SSA + facts of function (pkg-relative name)")
 	cfgName := flag.String("config", "default", "build configuration: default|nocgo|purego|arm64|386")
 	contractsOut := flag.Bool("contracts", false, "print the Go↔C contract table as JSON and exit")
+	dumpVocab := flag.Bool("dumpvocab", false, "print the names of all module functions (over the build configurations) as Go source for vocab.go and exit")
 	flag.Parse()
+	if *dumpVocab {
+		names := map[string]bool{}
+		for _, cn := range []string{"default", "nocgo", "purego", "arm64", "386", "s390x"} {
+			lc, _ := configByName(cn, *repo)
+			w, err := load(lc)
+			if err != nil {
+				fmt.Fprintln(os.Stderr, cn, err)
+				continue
+			}
+			for _, f := range w.moduleFuncs() {
+				if f.Synthetic == "" && f.Parent() == nil {
+					names[f.String()] = true
+				}
+			}
+		}
+		var ns []string
+		for n := range names {
+			ns = append(ns, n)
+		}
+		sort.Strings(ns)
+		fmt.Println("package main\n\n// vocab: the module functions of the tree the rules were confirmed on (generated: cryptolint -dumpvocab).\n// Functions not listed here are treated as refactoring helpers and virtually inlined (vinline.go).\nvar vocab = map[string]bool{")
+		for _, n := range ns {
+			fmt.Printf("\t%q: true,\n", n)
+		}
+		fmt.Println("}")
+		return
+	}
 	if *contractsOut {
 		if err := dumpContracts(""); err != nil {
 			fmt.Fprintln(os.Stderr, err)
@@ -50,6 +79,12 @@ func main() {
 		}
 		w.out = &Out{Floors: map[string]int{}, Stats: map[string]int{}}
 		dumpFn(w, *dump)
+		return
+	}
+	if *prop == "all" || strings.Contains(*prop, ",") {
+		// several properties over one loaded program (used by the benign / self-test drivers):
+		// output is a JSON object {property: result}
+		runMany(*prop, *repo, *tier, lc, *outp)
 		return
 	}
 	f, ok := registry[*prop]
@@ -93,12 +128,73 @@ func main() {
 				}
 			}
 		}()
+		gWorld = w
 		f(w)
 	}()
 	if *outp == "" {
 		*outp = "/dev/stdout"
 	}
 	if err := writeOut(*outp, out); err != nil {
+		fmt.Fprintln(os.Stderr, err)
+		os.Exit(2)
+	}
+}
+
+func runMany(props, repo, tier string, lc LoadCfg, outp string) {
+	var ids []string
+	if props == "all" {
+		for id := range registry {
+			ids = append(ids, id)
+		}
+	} else {
+		ids = strings.Split(props, ",")
+	}
+	sort.Strings(ids)
+	tierG = tier
+	repoDir = repo
+	res := map[string]*Out{}
+	var shared *World
+	var loadErr error
+	for _, id := range ids {
+		f, ok := registry[id]
+		if !ok {
+			continue
+		}
+		out := &Out{Property: id, Config: lc.Name, Floors: map[string]int{}, Stats: map[string]int{}}
+		res[id] = out
+		var w *World
+		if id == "C20" {
+			w = &World{out: out}
+			w.Cfg = repo
+		} else {
+			if shared == nil && loadErr == nil {
+				shared, loadErr = load(lc)
+			}
+			if loadErr != nil {
+				out.Obligations = append(out.Obligations, Obl{Rule: id + ".load", Key: "load:" + lc.Name, Status: "undecided", Where: "?", Detail: "loading the repository failed: " + loadErr.Error()})
+				continue
+			}
+			w = shared
+			w.out = out
+			w.stat("packages_loaded", len(w.ByPath))
+		}
+		func() {
+			defer func() {
+				if r := recover(); r != nil {
+					out.Obligations = append(out.Obligations, Obl{Rule: id + ".engine", Key: "panic", Status: "undecided", Where: "?", Detail: fmt.Sprint("analyser panic: ", r)})
+				}
+			}()
+			if w.Prog != nil {
+				gWorld = w
+			}
+			f(w)
+		}()
+	}
+	if outp == "" {
+		outp = "/dev/stdout"
+	}
+	b, _ := json.MarshalIndent(res, "", " ")
+	if err := os.WriteFile(outp, b, 0o644); err != nil {
 		fmt.Fprintln(os.Stderr, err)
 		os.Exit(2)
 	}
